@@ -80,6 +80,13 @@ def gen_op(rng: random.Random, kind: str) -> dict:
         return {"op": "KNOWN", "full_names": rng.random() < 0.5}
     if r < 0.86:
         return {"op": "IS_KNOWN", "key": rng.choice(SHORTS[:3] + ["nope"])}
+    if r < 0.89:
+        return {
+            "op": "METHOD",
+            "fn": rng.choice(["load", "save"]),
+            "what": rng.choice(["dataset", "model", "parameters", "scheme", "result"]),
+            "key": rng.choice(SHORTS[:3] + CASED + ["nope"]),
+        }
     return {
         "op": "DISPATCH",
         "fn": rng.choice(["load", "save"]),
@@ -183,6 +190,7 @@ def make_classes(kind: str, calls: Calls, ctor_fault: dict):
         )
         for mname in methods:
             ns[mname] = recorder(mname)
+            ns[mname].__qualname__ = f"{name}.{mname}"
         cls = type(name, (base,), ns)
         cls.instances = []
         classes.append(cls)
@@ -530,6 +538,34 @@ class Run:
             got = fe.is_known(op["key"])
             if bool(got) != (op["key"] in model.short):
                 return f"is_known({op['key']!r}) = {got}, model says {op['key'] in model.short}"
+            return None
+        if name == "METHOD":
+            if kind not in ("data_io", "project_io"):
+                return None
+            self.vkey = "C19/dispatch"
+            what = "dataset" if kind == "data_io" else (op["what"] if op["what"] != "dataset" else "model")
+            mname = f"{op['fn']}_{what}"
+            err = got = None
+            try:
+                if kind == "data_io":
+                    got = (fe.dio.get_dataloader if op["fn"] == "load" else fe.dio.get_datasaver)(op["key"])
+                else:
+                    got = fe.pio.get_project_io_method(op["key"], mname)
+            except Exception as e:  # noqa: BLE001
+                err = e
+            want = model.short.get(op["key"])
+            if want is None:
+                if not isinstance(err, ValueError):
+                    return f"method lookup for unknown format {op['key']!r}: expected ValueError, got {got!r} / {err!r}"
+                return None
+            if err is not None:
+                return f"method lookup {mname} for {op['key']!r} raised {type(err).__name__}: {err}"
+            owner = getattr(got, "__self__", None)
+            if owner is None or not Model.matches(want, owner) or getattr(got, "__name__", mname) != mname:
+                return (
+                    f"method lookup {mname} for {op['key']!r} returned {got!r} of {self.describe(owner)}, "
+                    f"model resolves the format to {self.describe_model(want)}"
+                )
             return None
         if name == "DISPATCH":
             return self.dispatch(kind, op, fe, model, calls)
